@@ -30,6 +30,8 @@ pub struct ProverCfg {
     pub poseidon_w32: bool,
     /// register the Poseidon1 width-16 table of the universe's field instead of the Poseidon2 one
     pub poseidon1: bool,
+    /// register the width-16 *and* the KoalaBear width-32 Poseidon2 tables (mixed circuits)
+    pub poseidon_both: bool,
 }
 impl Default for ProverCfg {
     fn default() -> Self {
@@ -43,6 +45,7 @@ impl Default for ProverCfg {
             debug_lookups: false,
             poseidon_w32: false,
             poseidon1: false,
+            poseidon_both: false,
         }
     }
 }
@@ -50,7 +53,7 @@ impl ProverCfg {
     pub fn to_json(&self) -> serde_json::Value {
         serde_json::json!({"public_lanes": self.public_lanes, "alu_lanes": self.alu_lanes, "horner_k": self.horner_k,
             "min_height": self.min_height, "profile_standard": self.profile_standard,
-            "poseidon": self.npo.poseidon, "recompose": self.npo.recompose, "poseidon_w32": self.poseidon_w32, "poseidon1": self.poseidon1})
+            "poseidon": self.npo.poseidon, "recompose": self.npo.recompose, "poseidon_w32": self.poseidon_w32, "poseidon1": self.poseidon1, "poseidon_both": self.poseidon_both})
     }
     pub fn from_json(v: &serde_json::Value) -> Self {
         let g = |k: &str, d: usize| v.get(k).and_then(|x| x.as_u64()).map(|x| x as usize).unwrap_or(d);
@@ -65,6 +68,7 @@ impl ProverCfg {
             debug_lookups: false,
             poseidon_w32: b("poseidon_w32", false),
             poseidon1: b("poseidon1", false),
+            poseidon_both: b("poseidon_both", false),
         }
     }
     pub fn swarm(rng: &mut crate::core::prng::Rng, npo: BuilderOpts) -> Self {
@@ -78,6 +82,7 @@ impl ProverCfg {
             debug_lookups: false,
             poseidon_w32: false,
             poseidon1: false,
+            poseidon_both: false,
         }
     }
 }
@@ -210,7 +215,10 @@ pub mod uparams {
 
 macro_rules! uni_npo_prover {
     (yes, $p:ident, $cfg:ident, $d:expr, $p2cfg:expr) => {
-        if $cfg.npo.poseidon && $cfg.poseidon1 {
+        if $cfg.npo.poseidon && $cfg.poseidon_both {
+            $p.register_poseidon2_table::<$d>($p2cfg);
+            $p.register_poseidon2_table::<$d>(p3_circuit::ops::Poseidon2Config::KOALA_BEAR_D4_W32);
+        } else if $cfg.npo.poseidon && $cfg.poseidon1 {
             $p.register_poseidon1_table::<$d>($crate::uni::p1_of($p2cfg));
         } else if $cfg.npo.poseidon {
             $p.register_poseidon2_table::<$d>(if $cfg.poseidon_w32 { p3_circuit::ops::Poseidon2Config::KOALA_BEAR_D4_W32 } else { $p2cfg });
@@ -253,7 +261,10 @@ macro_rules! uni_npo_builder {
 }
 macro_rules! uni_npo_keygen {
     (yes, $cfg:ident, $npo_prep:ident, $air_builders:ident, $sc:ty, $d:expr) => {
-        if $cfg.npo.poseidon && $cfg.poseidon1 {
+        if $cfg.npo.poseidon && $cfg.poseidon_both {
+            $npo_prep.push(Box::new(p3_circuit_prover::Poseidon2Preprocessor));
+            $air_builders.extend(p3_circuit_prover::batch_stark_prover::poseidon2_air_builders_for_configs::<$sc, $d>(vec![p3_circuit::ops::Poseidon2Config::KOALA_BEAR_D4_W16, p3_circuit::ops::Poseidon2Config::KOALA_BEAR_D4_W32]));
+        } else if $cfg.npo.poseidon && $cfg.poseidon1 {
             $npo_prep.push(Box::new(p3_circuit_prover::Poseidon1Preprocessor));
             $air_builders.extend(p3_circuit_prover::batch_stark_prover::poseidon1_air_builders::<$sc, $d>());
         } else if $cfg.npo.poseidon {
